@@ -9,6 +9,7 @@ import itertools
 import json
 import os
 import pathlib
+import re
 import shutil
 import tempfile
 
@@ -205,7 +206,7 @@ def _load(path, cache=None):
         c = _controller(cache)
         c.load_data(path)
     except Exception as e:  # noqa: BLE001
-        return ("raises", type(e).__name__, str(e)[:160])
+        return ("raises", type(e).__name__, re.sub(r"/tmp/vt-c20-[^/\"]+/d\d+", "<scratch>", str(e))[:160])
     return ("ok", _view(c))
 
 
